@@ -246,7 +246,17 @@ def append_invalidates(src):
                 relevant = _mentions(st, ("self._cursor", "flow"))
                 if not relevant:
                     continue
-                t = _bool(st.test, ATOMS_APPEND)
+                try:
+                    t = _bool(st.test, ATOMS_APPEND)
+                except Untranslatable:
+                    # a test over something the model has no atom for (e.g. `isinstance(self._rows, list)`): the
+                    # formula must hold whichever way it goes, so take lower bounds — invalidated only if both
+                    # branches invalidate, continuing only if both continue
+                    h1, c1 = block(st.body, cur)
+                    h2, c2 = block(st.orelse, cur)
+                    hit = "(%s || (%s && %s))" % (hit, h1, h2)
+                    cur = "(%s && %s)" % (c1, c2)
+                    continue
                 h1, c1 = block(st.body, "(%s && %s)" % (cur, t))
                 h2, c2 = block(st.orelse, "(%s && !%s)" % (cur, t))
                 hit = "(%s || %s || %s)" % (hit, h1, h2)
